@@ -8,6 +8,15 @@ import Mathlib.Tactic.IntervalCases
 
 /-!
 # C11 — ground-station geometry matches independent geodesy
+
+Theorems over ℝ about the model `Model/StationR.lean`, which is built on formulas **translated from the Python
+source on every run** (Generated/StationGeoR.lean): `geodeticToCartesian` (stations.py), `rot2`, `rot3`
+(utils/matrix.py), `topoM` (the matrix expression of `TopocentricOrientation.__init__`, orient.py), `sphericalOf`
+(forms.py), `measRange/Azimut/Elevation/Doppler` (measures.py), `earthR/F/E` (constants.py).  A changed sign,
+factor or constant in the source changes the regenerated term and these proofs are re-checked against it.
+
+The reference is the independent geodetic east / north / up triad defined here (`eastV`, `northV`, `upV`).
+The horizon mask is in Props/C11Mask.lean.
 -/
 noncomputable section
 namespace BeyondVerif.C11
@@ -56,8 +65,16 @@ theorem radicand_pos (lat : ℝ) : 0 < 1 - (earthE * Real.sin lat) ^ 2 := by
 
 /-- **The station sits on the ellipsoid** (clause "the station sits on the ellipsoid at the given height",
 height 0): for every latitude and longitude the point `_geodetic_to_cartesian(lat, lon, 0)` satisfies
-`x²/a² + y²/a² + z²/b² = 1` with `a = Earth.r`, `b = a (1 − f)`. -/
-theorem station_on_ellipsoid (lat lon : ℝ) :
+`x²/a² + y²/a² + z²/b² = 1` with `a = Earth.r`, `b = a (1 − f)`, the constants being those regenerated from
+constants.py.
+
+`_partial`: the full statement of the property has the **WGS-84** ellipsoid, i.e. the same equation with
+`a = 6378137`:
+    `x ^ 2 / 6378137 ^ 2 + y ^ 2 / 6378137 ^ 2 + z ^ 2 / (6378137 * (1 - 1 / 298.257223563)) ^ 2 = 1`.
+That is false of the current code: `earthR = 6378136.3` (Witness/C11.lean `earth_radius_is_not_wgs84`,
+`equator_station_position`; known finding C11-station-ellipsoid-radius).  The flattening is WGS-84's.  What is
+missing is exactly `earthR = 6378137`; with the proposed fix the regenerated constant makes this the full statement. -/
+theorem station_on_ellipsoid_partial (lat lon : ℝ) :
     ∃ x y z, geodeticToCartesian lat lon 0 = [x, y, z] ∧
       x ^ 2 / earthR ^ 2 + y ^ 2 / earthR ^ 2 + z ^ 2 / (earthR * (1 - earthF)) ^ 2 = 1 := by
   obtain ⟨hf0, hf1, he, _, _, hr⟩ := earth_constants
@@ -69,7 +86,7 @@ theorem station_on_ellipsoid (lat lon : ℝ) :
     (by rw [Real.sq_sqrt hD.le]; ring) he (Real.sin_sq_add_cos_sq lat) (Real.sin_sq_add_cos_sq lon)
 
 example : ∃ x y z, geodeticToCartesian (Real.pi / 4) (-1) 0 = [x, y, z] ∧
-    x ^ 2 / earthR ^ 2 + y ^ 2 / earthR ^ 2 + z ^ 2 / (earthR * (1 - earthF)) ^ 2 = 1 := station_on_ellipsoid _ _
+    x ^ 2 / earthR ^ 2 + y ^ 2 / earthR ^ 2 + z ^ 2 / (earthR * (1 - earthF)) ^ 2 = 1 := station_on_ellipsoid_partial _ _
 
 /-- **… at the given height**: the station at altitude `alt` is the foot point (altitude 0) moved by `alt`
 along the unit vector `up = (cos lat cos lon, cos lat sin lon, sin lat)`. -/
